@@ -71,6 +71,12 @@ def add (s : State) (now : Nat) : State × Nat × Nat :=
     let tcp := Tcp.enqueue s.tcp [0] now
     ({ s with tcp := tcp, slots := s.slots.set slot (some h), pending := s.pending + 1, ids := s.ids ++ [id] }, 0, id)
 
+/-- `asyncClient_setOption(c, KSI_ASYNC_OPT_REQUEST_CACHE_SIZE, n)` on a client in use: the cache
+may only grow; every slot keeps its handle -/
+def grow (s : State) (n : Nat) : State × Nat :=
+  if n + 1 < s.size then (s, St.INVALID_ARGUMENT)
+  else ({ s with size := n + 1, slots := s.slots ++ List.replicate (n + 1 - s.size) none }, 0)
+
 /-- `asyncClient_setResponseError(c, WAITING_FOR_RESPONSE, err)` -/
 def failWaiting (s : State) (err : Nat) : State :=
   { s with tcp := s.slots.foldl (fun tcp o =>
